@@ -14,6 +14,52 @@ fn fe<const MQ: u64>(x: &GF255<MQ>) -> BigInt { emod(&val(x), &q255(MQ)) }
 fn u32of(b: &[u8]) -> u32 { u32::from_le_bytes(b[..4].try_into().unwrap()) }
 fn u64of(b: &[u8]) -> u64 { u64::from_le_bytes(b[..8].try_into().unwrap()) }
 
+// Operand pairs whose 512-bit integer product lies just above / below a multiple of 2^(64 j):
+// a carry dropped in the last accumulation pass of a schoolbook product only shows up there.
+fn near_boundary_pair(r: &mut crate::gen::Rng) -> Vec<u8> {
+    use crate::gen::limb_palette;
+    let mut bl = [0u64; 4];
+    for i in 0..4 { bl[i] = limb_palette(r, 19); }
+    if bl[3] == 0 { bl[3] = 1u64 << r.below(64); }
+    if r.below(2) == 0 { bl[3] |= 1u64 << 63; }
+    let b = limbs_to_int(&bl);
+    let j = 4 + r.below(4) as u32;                 // boundary 2^(64 j), j = 4..7
+    let k = BigInt::from(1 + r.below(1u64 << 20)) ;
+    let k = if r.below(2) == 0 { k } else { BigInt::from(limb_palette(r, 19)) + 1 };
+    let target = k << (64 * j);
+    let mut a = (&target + &b - 1) / &b;           // ceil
+    a += BigInt::from(r.below(5) as i64 - 2);
+    if a < BigInt::from(0) || a >= pow2(256) { a = pow2(256) - 1 - BigInt::from(r.below(1000)); }
+    let mut v = int_to_le(&a, 32);
+    if r.below(2) == 0 { v.extend_from_slice(&int_to_le(&b, 32)); } else { let mut w = int_to_le(&b, 32); w.extend_from_slice(&v); v = w; }
+    v
+}
+fn near_boundary_square(r: &mut crate::gen::Rng) -> Vec<u8> {
+    use crate::gen::limb_palette;
+    let j = 4 + r.below(4) as u32;
+    let k = if r.below(2) == 0 { BigInt::from(1 + r.below(1u64 << 30)) } else { BigInt::from(limb_palette(r, 19)) + 1 };
+    let target = k << (64 * j);
+    let mut a = target.sqrt() + BigInt::from(r.below(5) as i64 - 2);
+    if a < BigInt::from(0) || a >= pow2(256) { a = pow2(256) - 1 - BigInt::from(r.below(1000)); }
+    int_to_le(&a, 32)
+}
+fn pair_specials() -> Vec<Vec<u8>> {
+    let mut v = Vec::new();
+    let sp = crate::gen::special_values_255(19);
+    for a in sp.iter() { for b in sp.iter() { let mut x = int_to_le(a, 32); x.extend_from_slice(&int_to_le(b, 32)); v.push(x); } }
+    v
+}
+fn pair_random(r: &mut crate::gen::Rng) -> Vec<u8> {
+    if r.below(3) != 0 { return near_boundary_pair(r); }
+    let l4 = Op::Limbs4 { mq: 19 };
+    let mut v = crate::gen::random(&l4, r); v.extend_from_slice(&crate::gen::random(&l4, r)); v
+}
+fn sq_specials() -> Vec<Vec<u8>> { crate::gen::special_values_255(19).iter().map(|x| int_to_le(x, 32)).collect() }
+fn sq_random(r: &mut crate::gen::Rng) -> Vec<u8> {
+    if r.below(3) != 0 { return near_boundary_square(r); }
+    crate::gen::random(&Op::Limbs4 { mq: 19 }, r)
+}
+
 fn chk(cond: bool, msg: impl FnOnce() -> String) -> Result<(), String> { if cond { Ok(()) } else { Err(msg()) } }
 
 fn reg<const MQ: u64>(v: &mut Vec<Case>, tag: &str) {
@@ -74,14 +120,14 @@ fn reg<const MQ: u64>(v: &mut Vec<Case>, tag: &str) {
         chk(fe(&r) == emod(&(fe(&a) * BigInt::from(x)), &q), || format!("mul_small: limbs out {:x?}", r.verif_limbs()))
       }); }
     { let q = q.clone(); let ops = ops2.clone();
-      case!("gf255_mul", "fe(a*b) == fe(a)*fe(b) mod q", ops2.clone(), move |inp: &[u8]| {
+      case!("gf255_mul", "fe(a*b) == fe(a)*fe(b) mod q", vec![Op::Custom { len: Some(64), specials: pair_specials, random: pair_random }], move |inp: &[u8]| {
         let o = split(&ops, inp).ok_or("bad input length")?;
         let (a, b) = (el::<MQ>(o[0]), el::<MQ>(o[1]));
         let r = a * b;
         chk(fe(&r) == emod(&(fe(&a) * fe(&b)), &q), || format!("mul: limbs out {:x?}", r.verif_limbs()))
       }); }
     { let q = q.clone(); let ops = ops1.clone();
-      case!("gf255_square", "fe(a^2) == fe(a)^2 mod q", ops1.clone(), move |inp: &[u8]| {
+      case!("gf255_square", "fe(a^2) == fe(a)^2 mod q", vec![Op::Custom { len: Some(32), specials: sq_specials, random: sq_random }], move |inp: &[u8]| {
         let o = split(&ops, inp).ok_or("bad input length")?;
         let a = el::<MQ>(o[0]);
         let r = a.square();
